@@ -252,7 +252,15 @@ impl<'input> Parser<'input> {
     }
 
     /// Push pending tokens (ignored + errors) to the current node.
+    ///
+    /// A syntax tree has exactly one root node, so tokens can not be added outside of it.
+    /// The standalone entry points ([`Parser::parse_type`], [`Parser::parse_selection_set`])
+    /// only know which node is the root after looking at the first tokens: as long as no node
+    /// is open, the pending tokens are kept, and they end up at the start of the root node.
     pub(crate) fn push_ignored(&mut self) {
+        if !self.builder.borrow().is_in_node() {
+            return;
+        }
         let pending = std::mem::take(&mut self.pending);
         for item in pending {
             match item {
